@@ -312,5 +312,26 @@ func (pp *PreParams) Unmarshal(bytes []byte) error {
 	}
 	pp.creationTimestamp = pbPreParams.CreationTimestamp.AsTime()
 
+	// A record with a missing field (an empty or partially written file,
+	// a record that does not carry the proof parameters) decodes to zero
+	// numbers, not to nil ones, so keygen.LocalPreParams.ValidateWithProof
+	// would accept it. Such pre-parameters must not be used.
+	for _, number := range []*big.Int{
+		pp.data.PaillierSK.N,
+		pp.data.PaillierSK.LambdaN,
+		pp.data.PaillierSK.PhiN,
+		pp.data.NTildei,
+		pp.data.H1i,
+		pp.data.H2i,
+		pp.data.Alpha,
+		pp.data.Beta,
+		pp.data.P,
+		pp.data.Q,
+	} {
+		if number.Sign() == 0 {
+			return fmt.Errorf("pre params are incomplete")
+		}
+	}
+
 	return nil
 }
